@@ -1,0 +1,30 @@
+//go:build verif
+
+// Command verifdump exposes internal gocc functions to the external
+// verification harness. It is only built with -tags verif and is not part of
+// the gocc tool.
+package main
+
+import (
+	"bufio"
+	"fmt"
+	"os"
+)
+
+var commands = map[string]func(in *bufio.Reader, out *bufio.Writer, args []string){}
+
+func main() {
+	if len(os.Args) < 2 {
+		fmt.Fprintln(os.Stderr, "usage: verifdump <command> [args]")
+		os.Exit(2)
+	}
+	cmd, ok := commands[os.Args[1]]
+	if !ok {
+		fmt.Fprintf(os.Stderr, "verifdump: unknown command %q\n", os.Args[1])
+		os.Exit(2)
+	}
+	in := bufio.NewReaderSize(os.Stdin, 1<<20)
+	out := bufio.NewWriterSize(os.Stdout, 1<<20)
+	defer out.Flush()
+	cmd(in, out, os.Args[2:])
+}
